@@ -191,18 +191,22 @@ peg::parser! {
 
         rule expr() -> Expr = or_expr()
 
+        // and_expr / factor are tried twice by the alternatives below (once as the left operand, once
+        // alone); without memoisation every nesting level multiplies the work by four.
         rule or_expr() -> Expr
             = x:and_expr() _ ci("OR") _ y:or_expr() {
                 Expr::Or(Box::new(x), Box::new(y))
             }
             / and_expr()
 
+        #[cache]
         rule and_expr() -> Expr
             = x:factor() _ ci("AND") _ y:and_expr() {
                 Expr::And(Box::new(x), Box::new(y))
             }
             / factor()
 
+        #[cache]
         rule factor() -> Expr
             = ci("NOT") _ x:factor() { Expr::Not(Box::new(x)) }
             / "(" _ e:expr() _ ")" { e }
